@@ -37,6 +37,8 @@ pub fn reproducers() -> Vec<(&'static str, String, usize, &'static str, String)>
     v.push(("F48-ampersand-unchecked", pass(), 2, "BOOL & BOOL stays accepted and runs (uint & FALSE is now a compile error, i.e. outside the domain)", p("  a : BOOL := TRUE;\n  b : BOOL;\n", "  b := a & (NOT b);\n")));
     v.push(("F49-fb-var-temp-in-method", known(super::sig::F49), 2, "an FB's VAR_TEMP used in one of its methods compiles", "FUNCTION_BLOCK FB\nVAR_TEMP\n  tmp : DINT;\nEND_VAR\nMETHOD PUBLIC M : DINT\n  M := tmp;\nEND_METHOD\nEND_FUNCTION_BLOCK\n\nPROGRAM Main\nVAR\n  fb : FB;\n  x : DINT;\nEND_VAR\n  x := fb.M();\nEND_PROGRAM\n".to_string()));
     v.push(("F50-unary-minus-on-unsigned", pass(), 2, "-u with u : UINT = 0 is 0; with u <> 0 it must be Overflow like UINT#0 - u", p("  u : UINT;\n  y : UINT;\n  b : BOOL;\n", "  y := -u;\n  b := -u < UINT#1;\n  u := UINT#3;\n  y := -u;\n")));
+    v.push(("F51-jmp-out-of-nested-block", pass(), 2, "JMP from inside an IF / a FOR body to a label of the enclosing block", p("  x : INT;\n  j : INT;\n  i : INT;\n", "  j := INT#3;\n  l2: j := j - INT#1;\n  x := x + INT#1;\n  IF j > INT#0 THEN\n    JMP l2;\n  END_IF;\n  FOR i := INT#0 TO INT#3 DO\n    IF i = INT#2 THEN\n      JMP l3;\n    END_IF;\n  END_FOR;\n  l3: x := x + INT#1;\n")));
+    v.push(("F52-jmp-into-nested-block", known("F52-jmp-into-a-nested-block"), 2, "JMP to a label inside an IF branch compiles", p("  x : INT;\n  b : BOOL;\n", "  JMP li;\n  IF b THEN\n    li: x := INT#1;\n  END_IF;\n")));
     v.push(("F4-identifier-case", known(super::sig::F4), 2, "identifier written in another case", p("  Counter : INT;\n  y : INT;\n", "  y := counter + INT#1;\n")));
     v.push(("F5-mixed-signedness", known(super::sig::F5), 2, "INT < UINT with a negative INT", p("  a : INT := INT#-1;\n  b : UINT := UINT#1;\n  c : BOOL;\n", "  c := a < b;\n")));
     v.push(("F23-int-pow-negative", known(super::sig::F23), 2, "INT ** negative", p("  a : INT := INT#2;\n  b : INT := INT#-1;\n  c : INT;\n", "  c := a ** b;\n")));
